@@ -8,6 +8,13 @@ trap 'rm -rf "$d"' EXIT
 mkdir -p "$d/repo" "$d/verif"
 rsync -a --exclude .git /repo/ "$d/repo/" || [ $? -eq 24 ]
 rsync -a --exclude .git --exclude build/cases --exclude build/tmp --exclude build/logs --exclude evidence/replays /verif/ "$d/verif/" || [ $? -eq 24 ]
+# other agents may be editing /verif: judge the change with the COMMITTED machinery (tracked files that differ from HEAD are
+# replaced by their HEAD version, freshly touched so that make rebuilds what depends on them)
+if [ -z "$TRIAL_WORKTREE" ]; then
+  git -C /verif diff --name-only HEAD | while read -r f; do
+    if git -C /verif cat-file -e "HEAD:$f" 2>/dev/null; then mkdir -p "$d/verif/$(dirname "$f")"; git -C /verif show "HEAD:$f" > "$d/verif/$f"; fi
+  done
+fi
 if [ "$patch" != "-" ]; then (cd "$d/repo" && patch -p1 --no-backup-if-mismatch < "$patch" >/dev/null); fi
 cd "$d/verif"; set +e
 VERIF_REPO="$d/repo" ./check "$prop" --tier "$tier" > "$d/out.txt" 2>&1; rc=$?; grep -E "^(VIOLATION|KNOWN-FINDING|OK property)" "$d/out.txt" || true; tail -${TRIAL_TAIL:-8} "$d/out.txt"
